@@ -24,7 +24,7 @@ def Histo.barBytes (A : Arith α) (env : Env) (h : Histo) (val : Int) : Bytes :=
 
 /-- the text of a histogram line as a function of the writer's CURRENT state -/
 def Histo.lineText (A : Arith α) (env : Env) (h : Histo) (key : Bytes) (val : Int) : Bytes :=
-  let s := wrap env cYellow (padRight key h.textSpacing) ++ ascii "    " ++ padRight (h.fmt.apply val 0 h.maxVal) 10
+  let s := wrap env cYellow (padVis env key h.textSpacing) ++ ascii "    " ++ padRight (h.fmt.apply val 0 h.maxVal) 10
   let s := if h.showPct ∧ h.total > 0 then s ++ [32] ++ wrap env cCyan pctText else s
   if h.showBar ∧ h.maxVal > 0 then s ++ [32] ++ colorWrite env cBlue (h.barBytes A env val) else s
 
